@@ -107,9 +107,12 @@ package verifspec
 //@   loop 2 hint head: ghost F = fqb(b)
 //@   loop 2 hint step: split(S, 0, K, K + F)
 //@   loop 2 hint step: split(S, 0, K + F, K + F + 2)
-//@   loop 1 hint step: split(B, 0, 1, K + F + 2)
-//@   loop 1 hint step: split(B, 1, 1 + K, K + F + 2)
-//@   loop 1 hint step: split(B, 1 + K, 1 + K + F, K + F + 2)
+//@   loop 2 hint exit: split(B, 0, 1, 1 + K + F)
+//@   loop 2 hint exit: split(B, 1, 1 + K, 1 + K + F)
+//@   loop 2 hint exit: assert seq(out) == cat(O1, seq(B[:1 + K + F])) && strq(S) == K + F && len(b) == len(B) - 1 - K - F
+//@   loop 1 hint step: split(B, 0, 1 + K + F, 2 + K + F)
+//@   loop 1 hint step: assert rw(B, P1) == cat(seq(B[:K + F + 2]), rw(B[K + F + 2:], 34))
+//@   loop 1 hint step: assert seq(out) == cat(O1, seq(B[:K + F + 2]))
 
 // Decl.minify: every one of the nine code sections goes through whitespace removal of *its own* content; nothing else changes.
 //@ func compiler.Decl.minify
